@@ -9,6 +9,8 @@ CONSTANTS
   HereAt = 1
   HereUnits = 2
   SigpipeMode = "ignored"
+  CapRedirect = FALSE
+  CapCloseMode = "always"
   CapReadMode = "concurrent"
   Capture = FALSE
 INVARIANT ShellAlive
